@@ -276,6 +276,10 @@ func (m *Muxer) validate() error {
 	if canvasW > container.MaxCanvasSize || canvasH > container.MaxCanvasSize {
 		return fmt.Errorf("%w: canvas %dx%d exceeds the 24-bit limit", ErrMuxValidation, canvasW, canvasH)
 	}
+	if uint64(canvasW)*uint64(canvasH) >= container.MaxImageArea {
+		// Readers (including this package's parser) reject such a canvas.
+		return fmt.Errorf("%w: canvas area %dx%d too large", ErrMuxValidation, canvasW, canvasH)
+	}
 	for i, f := range m.frames {
 		// Offsets are stored halved in 24 bits; anything else would be
 		// written truncated.
